@@ -4,7 +4,7 @@
    label sequences of the LTS. *)
 From Coq Require Import List ZArith Bool.
 Import ListNotations.
-From Goat Require Import Model.Proxy Proofs.ProxyProofs Proofs.ProxyOrder Proofs.ProxyWire Proofs.ProxyMeasure.
+From Goat Require Import Model.Proxy Model.ProxyHeld Proofs.ProxyProofs Proofs.ProxyOrder Proofs.ProxyWire Proofs.ProxyMeasure Proofs.ProxyHeldProofs.
 Open Scope Z_scope.
 
 (* source: whatever is forwarded has a header and the source under which its sender is attached; and nothing
@@ -112,6 +112,47 @@ Theorem C17_errors_reported_run : forall cf ls s, lrun cf init ls = Some s -> ca
 Proof. exact C17_errors_reported_run_l. Qed.
 Print Assumptions C17_errors_reported_run.
 
+(* ---------- isolation in a model in which the serve loop CAN be busy (Model/ProxyHeld.v) ---------- *)
+(* Model/Proxy.v makes one iteration of the serve loop one atomic rule, so "a bad peer cannot stall the loop" is
+   true there by construction. Model/ProxyHeld.v adds the loop as a resource: busy inside forwardRpc (begin / end of
+   a forward) and inside the user's disconnect callback (begin / end of a callback); while it is busy no command is
+   received. The theorems below are about that model. *)
+
+(* it refines Model/Proxy.v: the base part of every reachable held state is reachable there - every safety theorem
+   of Props/C16.v and of this file holds while the loop is held *)
+Theorem C17_held_refines : forall cf ls h, hrun cf hinit ls = Some h -> exists ls', lrun cf init ls' = Some (base h).
+Proof. exact held_refines. Qed.
+Print Assumptions C17_held_refines.
+
+(* isolation: in EVERY reachable state in which the loop is inside a forward - whatever the other records are doing:
+   write loops stuck or failed, read loops failed, dials hanging, buffers full, the context cancelled - the end of
+   the forward is enabled: forwardRpc has no blocking action, no peer can keep the loop. (The negation is expressible
+   here: a forward whose end needs room in a buffer, or a dial slot, would falsify it - the seeded changes C17_m2,
+   C17_10 are such programs.) The only other way the loop is busy is the user's callback (HEndCb is the
+   environment's label). *)
+Theorem C17_forward_completes : forall cf ls h j, hrun cf hinit ls = Some h -> loop h = InForward j ->
+  exists h', hstep cf h HEndFwd = Some h' /\ loop h' = Idle.
+Proof. exact C17_forward_completes_l. Qed.
+Print Assumptions C17_forward_completes.
+
+(* while the loop is held, no step but the end of the hold adds a forwarding-loop event to the history: nothing is
+   forwarded, no failure handled, no dial started ... *)
+Theorem C17_held_nothing_forwarded : forall cf h l h', reachable cf (base h) -> loop h <> Idle ->
+  hstep cf h l = Some h' -> l <> HEndFwd ->
+  loop_events (log (base h')) = loop_events (log (base h)).
+Proof. exact C17_held_nothing_forwarded_l. Qed.
+Print Assumptions C17_held_nothing_forwarded.
+
+(* ... but nothing is lost and order is kept, on both sides of the loop *)
+Theorem C17_held_loop_no_loss : forall cf ls h, hrun cf hinit ls = Some h ->
+  (forall j, delivered_of (base h) j = cmds j (log (base h)) ++ rd_pend (base h) j ++ rd_lost j (log (base h)) ++ inbox_of (base h) j /\
+             (length (rd_lost j (log (base h))) <= 1)%nat) /\
+  (forall i, enqs i (log (base h)) = outs i (log (base h)) ++ wfails i (log (base h)) ++ wr_pend (base h) i ++ buf_of (base h) i /\
+             (length (wfails i (log (base h))) <= 1)%nat) /\
+  drops_only_when_full (cf_buf cf) (log (base h)) /\ crashed (base h) = false.
+Proof. exact C17_held_loop_no_loss_l. Qed.
+Print Assumptions C17_held_loop_no_loss.
+
 (* ---------- the hypotheses are satisfiable ---------- *)
 Definition cf0 : cfg := mkCfg 99 2 (fun _ d => Some d).
 (* a spoofed envelope and a header-less one are dropped, an honest one is forwarded *)
@@ -147,3 +188,23 @@ Example C17_ex_reported_run : exists s s',
   discs 1 (log s') = [(2, true)] /\ option_map p_reg (nth_error (clients s') 1) = Some false.
 Proof. eexists. eexists. split. vm_compute. reflexivity. split. vm_compute. reflexivity.
   split. vm_compute. reflexivity. vm_compute. repeat split; reflexivity. Qed.
+
+(* non-vacuity of the held-loop theorems: peer 2's Read fails, the loop enters its disconnect callback and stays;
+   meanwhile peer 1 sends an envelope for 2, its read loop reads and offers it - nothing is forwarded; the callback
+   returns; the loop takes the envelope (inside the forward now), ends the forward: name 2, forgotten, is dialled *)
+Definition exheld : list hlabel :=
+  [HExt (AAttach 1 true); HExt (AAttach 2 true); HExt (AFailRead 1);
+   HInt KRdRead 1; HBeginCb 1 0;
+   HExt (ADeliver 0 (mkEnv true 1 2 [] None 70)); HInt KRdRead 0; HInt KWrExit 1].
+Example C17_ex_held : exists h h2 h3,
+  hrun cf0 hinit exheld = Some h /\ loop h = InCallback 1 /\ offers_env (base h) 0 = true /\
+  loop_events (log (base h)) = [EvDisc 1 2 true] /\
+  hstep cf0 h (HBeginFwd 0) = None /\
+  hrun cf0 h [HEndCb; HBeginFwd 0] = Some h2 /\ loop h2 = InForward 0 /\
+  hstep cf0 h2 HEndFwd = Some h3 /\ dials (log (base h3)) = [(2%nat, 2)].
+Proof.
+  eexists. eexists. eexists. split. vm_compute. reflexivity. split. vm_compute. reflexivity.
+  split. vm_compute. reflexivity. split. vm_compute. reflexivity. split. vm_compute. reflexivity.
+  split. vm_compute. reflexivity. split. vm_compute. reflexivity. split. vm_compute. reflexivity.
+  vm_compute. reflexivity.
+Qed.
